@@ -4,6 +4,7 @@
 package c12
 
 import (
+	"bytes"
 	"fmt"
 	"reflect"
 
@@ -285,15 +286,118 @@ func witnessEmptyMapMarker(c *core.Case) {
 	}
 }
 
+// ---- custom message types nested in messages ----------------------------------------------------
+
+type customHolder struct {
+	A  int64            `protobuf:"varint,1,opt,name=a"`
+	M  ptypes.MsgT      `protobuf:"bytes,2,opt,name=m"`
+	PM *ptypes.MsgT     `protobuf:"bytes,3,opt,name=pm"`
+	G  ptypes.GogoT     `protobuf:"bytes,4,opt,name=g"`
+	PG *ptypes.GogoT    `protobuf:"bytes,5,opt,name=pg"`
+	R  proto.RawMessage `protobuf:"bytes,6,opt,name=r"`
+	LM []ptypes.MsgT    `protobuf:"bytes,7,rep,name=lm"`
+	LG []ptypes.GogoT   `protobuf:"bytes,300,rep,name=lg"`
+	Z  int64            `protobuf:"varint,70000,opt,name=z"`
+}
+
+// runCustom: a field whose Go type implements Message (or the gogo-style interface) is an
+// ordinary length-delimited field on the wire: tag, length, then exactly the bytes the type's
+// own Marshal produced.
+func runCustom(c *core.Case) {
+	r := c.Rng
+	c.Journal("custom-fields")
+	v := customHolder{A: r.Int64(), Z: r.Int64()}
+	want := map[int][][]byte{}
+	msg := func() ptypes.MsgT { return ptypes.MsgT{B: r.Bytes(r.Intn(200))} }
+	gogo := func() ptypes.GogoT { return ptypes.GogoT{Hi: uint32(r.Uint64()), Lo: uint32(r.Uint64())} }
+	encM := func(m ptypes.MsgT) []byte { b := make([]byte, m.Size()); m.Marshal(b); return b }
+	encG := func(g ptypes.GogoT) []byte { b := make([]byte, 8); g.MarshalTo(b); return b }
+	if r.Bool() {
+		v.M = msg()
+	}
+	want[2] = [][]byte{encM(v.M)}
+	if r.Bool() {
+		m := msg()
+		v.PM = &m
+		want[3] = [][]byte{encM(m)}
+	}
+	if r.Bool() {
+		v.G = gogo()
+	}
+	want[4] = [][]byte{encG(v.G)}
+	if r.Bool() {
+		g := gogo()
+		v.PG = &g
+		want[5] = [][]byte{encG(g)}
+	}
+	if r.Bool() {
+		v.R = proto.RawMessage(r.Bytes(r.Range(1, 150)))
+		want[6] = [][]byte{[]byte(v.R)}
+	}
+	for k := r.Intn(4); k > 0; k-- {
+		m := msg()
+		v.LM = append(v.LM, m)
+		want[7] = append(want[7], encM(m))
+	}
+	for k := r.Intn(4); k > 0; k-- {
+		g := gogo()
+		v.LG = append(v.LG, g)
+		want[300] = append(want[300], encG(g))
+	}
+	b, err := proto.Marshal(&v)
+	if err != nil {
+		c.Violation("custom-fields", "marshal-error", err.Error(), nil)
+		return
+	}
+	fs, ok := pwire.Fields(b)
+	if !ok {
+		c.Violation("custom-fields", "not-wire-format", fmt.Sprintf("Marshal wrote %x, which the reference scanner rejects", tr(b)), nil)
+		return
+	}
+	got := map[int][][]byte{}
+	for _, f := range fs {
+		if f.Num >= 2 && f.Num <= 300 && f.Typ == 2 {
+			got[f.Num] = append(got[f.Num], b[f.ValStart:f.End])
+		}
+	}
+	for num, ws := range want {
+		gs := got[num]
+		// singular zero-valued members may be omitted altogether
+		if len(ws) == 1 && len(gs) == 0 && (num == 2 || num == 4) {
+			continue
+		}
+		same := len(gs) == len(ws)
+		for i := 0; same && i < len(ws); i++ {
+			same = bytes.Equal(gs[i], ws[i])
+		}
+		if !same {
+			c.Violation(fmt.Sprintf("custom-fields|field%d", num), "payload-is-not-the-types-own-encoding", fmt.Sprintf("field %d holds %x on the wire; the type's own Marshal gives %x (message %x)", num, gs, ws, tr(b)), map[string]any{"bytes_hex": fmt.Sprintf("%x", tr(b))})
+			return
+		}
+	}
+	// and back
+	var back customHolder
+	if err := proto.Unmarshal(b, &back); err != nil {
+		c.Violation("custom-fields", "unmarshal-error", err.Error(), nil)
+		return
+	}
+	if ok, d := ptypes.Equal(reflect.ValueOf(&v).Elem(), reflect.ValueOf(&back).Elem()); !ok {
+		c.Violation("custom-fields", "value-diff", d, nil)
+	}
+	c.Count("custom-fields.checked", len(want))
+	c.Distinct(core.HashBytes(b), true)
+}
+
 func init() {
 	pdesc.Carries = func(v reflect.Value) bool { return !ptypes.NilEquivalent(v.Addr()) }
 	core.Register(&core.Monitor{
 		Prop:      "C12",
 		Witnesses: map[string]func(*core.Case){"empty-map-marker": witnessEmptyMapMarker},
-		Rule:      "generated: a message type from the C03 generator restricted to kinds with a .proto equivalent (no byte arrays, no custom types) and its descriptor (proto2 syntax, fields numbered by declaration order or tag, Go kinds mapped by the table of proto.TypeOf, sint/fixed from tags, unpacked repeated scalars, nested messages, map entries) x 2 values. Direction 1: proto.Marshal output is unmarshalled by dynamicpb (no error, no unknown fields) and converted back to a Go value that must equal the original (nil == empty; floats by ==). Direction 2: the value is marshalled deterministically by the reference implementation and given to proto.Unmarshal as is and in 5 legal re-encodings (fields reordered, non-minimal varints in tags/lengths/values, an overridden earlier occurrence of singular scalars, singular embedded messages split into two occurrences, map entries with the value first; each re-encoding is first checked to be equivalent for the reference implementation). proto.TypeOf is compared with the descriptor (number, kind, repeated). Distinct by type string. The package's empty-map marker is stripped before direction 1 and reported by its own sub-monitor.",
+		Rule:      "generated: a message type from the C03 generator restricted to kinds with a .proto equivalent (no byte arrays, no custom types) and its descriptor (proto2 syntax, fields numbered by declaration order or tag, Go kinds mapped by the table of proto.TypeOf, sint/fixed from tags, unpacked repeated scalars, nested messages, map entries) x 2 values. Direction 1: proto.Marshal output is unmarshalled by dynamicpb (no error, no unknown fields) and converted back to a Go value that must equal the original (nil == empty; floats by ==). Direction 2: the value is marshalled deterministically by the reference implementation and given to proto.Unmarshal as is and in 5 legal re-encodings (fields reordered, non-minimal varints in tags/lengths/values, an overridden earlier occurrence of singular scalars, singular embedded messages split into two occurrences, map entries with the value first; each re-encoding is first checked to be equivalent for the reference implementation). proto.TypeOf is compared with the descriptor (number, kind, repeated). Distinct by type string. custom-fields: fields whose Go type implements Message or the gogo-style interface (by value, by pointer, repeated; RawMessage) must appear as tag, length and exactly the bytes of the type's own Marshal, checked with the reference scanner. The package's empty-map marker is stripped before direction 1 and reported by its own sub-monitor.",
 		Trusted:   []string{"google.golang.org/protobuf v1.25.0 (dynamicpb, protodesc, protowire) as the reference implementation", "the descriptor builder gen/pdesc (transcription of the proto.TypeOf table and of the struct tag grammar)", "gen/pwire.Reencode, each output validated against the reference implementation before use"},
 		Subs: []core.Sub{
 			{Name: "generated", N: core.Const(12000, 400000), Run: runGenerated},
+			{Name: "custom-fields", N: core.Const(2000, 50000), Run: runCustom},
 			{Name: "empty-map-marker", N: core.Const(1, 1), Run: func(c *core.Case) { witnessEmptyMapMarker(c); c.Distinct(5, true) }},
 		},
 	})
